@@ -201,6 +201,22 @@ def directed():
             yield gen_case(rng, [3, 0, 4, 2, 0], dtype, "nonfinite", "np", name)
 
 
+def sweep(tier):
+    """every vector of row lengths with <= 4 rows of length 0..2 (every placement of empty rows) x every named reduction"""
+    import itertools
+    import random
+    rng = random.Random(55)
+    dts = ["int64", "bool"] if tier == "quick" else ["int64", "bool", "uint8", "float64", "int8"]
+    for n in range(0, 5):
+        for lens in itertools.product(range(3), repeat=n):
+            for dtype in dts:
+                for name in NAMED:
+                    yield gen_case(rng, list(lens), dtype, "small", "method" if sum(lens) % 2 else "np", name)
+                if tier != "quick":
+                    for name in UFUNCS:
+                        yield gen_case(rng, list(lens), dtype, "small", "ufunc.reduce", name)
+
+
 def random_case(rng, tier):
     lens, _ = gen.length_vector(rng, tier)
     dtype = rng.choice(gen.DT_ALL)
